@@ -62,24 +62,14 @@ def sig(b):
 
 
 def split_bad(ctx, res):
-    """Join TLC's <<"BAD", tl, n>> lines with its <<"DRIFT", tl, "BADSEC conjunct section">> lines: one item per pair."""
-    per_line = {}
-    keep = []
-    for d in ctx.drift:
-        m = re.match(r'^"BADSEC (\S+) (\S+)"$', d["what"].strip())
-        if m:
-            per_line.setdefault(d["line"] + 1, set()).add((m.group(1), m.group(2)))
-        else:
-            keep.append(d)
-    ctx.drift[:] = keep
+    """Every <<"BAD", tl, "conjunct section">> line of TLC is one finding; only the why string is split."""
     out = []
     for b in res["bad"]:
-        pairs = sorted(per_line.get(b["line"], ()))
-        if not pairs:      # guard-style rejection (event not explained by any action / stuck)
+        m = re.match(r'^"(\S+) (\S+)"$', str(b.get("why", "")).strip())
+        if m:
+            out.append(dict(b, conj=m.group(1), section=m.group(2)))
+        else:              # guard-style rejection (event not explained by any action / stuck / invariant)
             out.append(dict(b, conj="unexplained", section="-"))
-            continue
-        for conj, sec in pairs:
-            out.append(dict(b, conj=conj, section=sec, why=f"{conj} {sec}"))
     return out
 
 
